@@ -25,7 +25,7 @@ RULE = (
     "previously written); optionally the transport's pause_writing/resume_writing callbacks and loop turns between calls. non-trivial = a batch with >=2 packets, or a boundary length/type, or a Noise write index >= 2."
 )
 ASSUMPTIONS = [
-    "Noise payloads above 65515 bytes are outside the documented frame size and are not generated",
+    "Noise payloads above 65515 bytes are outside the documented frame size: what the call itself does is not judged, only that the frames written after such an attempt still carry nonce = number of frames on the wire",
     "reference responder = stock noiseprotocol handshake + cryptography ChaCha20Poly1305 under explicit nonces",
 ]
 BUDGET = {
@@ -113,6 +113,39 @@ def run_case(case: dict) -> CaseResult:
 
                 fstub.loop().run_until_complete(asyncio.sleep(0))
         before = len(tr.writes)
+        if case["mode"] == "noise" and any(len(p) > 65515 for _t, p in batch):
+            # OUT OF DOMAIN for the encoding itself (the 16-bit lengths cannot carry it): whatever the call does --
+            # refuse, or write something -- is not judged.  What IS judged: the frames written afterwards still carry
+            # the nonce = number of frames on the wire (a refused call must not use up nonces).
+            classes.add("oversize_attempt")
+            try:
+                h.write_packets(list(batch), bool(case.get("debug")))
+            except Exception:  # noqa: BLE001
+                pass
+            new = tr.writes[before:]
+            if not new:
+                continue
+            # something was written: account for the frames in it by their known ciphertext lengths
+            data = b"".join(new)
+            want_len = sum(3 + 4 + len(p) + 16 for _t, p in batch)
+            ok = len(data) == want_len
+            off = 0
+            if ok:
+                for _t, p in batch:
+                    body = data[off + 3: off + 3 + 4 + len(p) + 16]
+                    off += 3 + len(body)
+                    try:
+                        r.decrypt_at(body, frames_written)
+                    except noise_ref.InvalidTag:
+                        ok = False
+                        break
+                    frames_written += 1
+            if not ok:
+                classes.add("oversize_untracked")  # cannot tell how many nonces are on the wire: stop judging this session
+                break
+            if conn.errors:
+                break
+            continue
         try:
             h.write_packets(list(batch), bool(case.get("debug")))
         except Exception as e:  # noqa: BLE001
@@ -230,6 +263,9 @@ def _case(draw, tier):
         case["flow"] = {str(i): draw(st.lists(st.sampled_from(["pause", "resume", "turn"]), min_size=1, max_size=3)) for i in range(len(calls)) if draw(st.booleans())}
     if mode == "noise":
         case["key"] = draw(st.one_of(st.binary(min_size=32, max_size=32), st.sampled_from([bytes(32), b"\xff" * 32]))).hex()
+    if mode == "noise" and draw(st.integers(0, 14)) == 7 and len(calls) >= 2:
+        k = draw(st.integers(0, len(calls) - 2))
+        calls[k].insert(draw(st.integers(0, len(calls[k]))), [106, {"h": "", "pad": [0x43, draw(st.sampled_from([65516, 65536, 66000, 70000]))]}])
     if draw(st.integers(0, 19)) == 11:
         case["prefix_frames"] = draw(st.one_of(st.integers(250, 262), st.integers(100, 1200)))
     return case
@@ -269,6 +305,10 @@ def enumerated(tier):
     for n in (254, 255, 256, 511, 513, 770) + ((65534, 65536, 131071) if tier == "thorough" else (65535,)):
         yield {"mode": "noise", "key": key, "prefix_frames": n, "calls": tail}
     yield {"mode": "plain", "prefix_frames": 300, "calls": tail}
+    # an oversize payload is attempted (alone / as a later member of a batch), then ordinary traffic
+    for big in (65516, 65535, 70000):
+        yield {"mode": "noise", "key": key, "calls": [[[7, {"h": ""}]], [[106, {"h": "", "pad": [0x41, big]}]], [[7, {"h": ""}]], [[8, {"h": ""}], [7, {"h": ""}]]]}
+        yield {"mode": "noise", "key": key, "calls": [[[7, {"h": ""}], [106, {"h": "", "pad": [0x42, big]}], [8, {"h": ""}]], [[7, {"h": ""}]], [[26, {"h": "0d01000000"}]]]}
     # debug logging on while large frames are written
     for mode in ("plain", "noise"):
         c = {"mode": mode, "debug": True, "calls": [[[1, {"h": "", "pad": [0x41, ln]}]] for ln in (1000, 1017, 1018, 1019, 1024, 1025, 2048, 16384, 65515)] + [[[1, {"h": "", "pad": [0x42, 700]}], [2, {"h": "", "pad": [0x43, 700]}]]]}
